@@ -26,12 +26,13 @@ INFO = {
                    "named (2DPGA, 3DPGA) and hand-written bases built one after another in one process, the product of the "
                    "generator matrices in the blade's spelled order, and the similarity transform is stacked from the first "
                    "columns of these same matrices in the same order (fixed finding F7: the basis was ignored); "
-                   "expr_as_matrix stores coeff(y_i, x_j) at A[i, j] and re-keys y by res_like. NOT decided: that the "
-                   "similarity transform makes the first column the coefficient vector (orthonormality of the first "
-                   "columns) and injectivity; sympy.collect / coeff.",
+                   "expr_as_matrix stores coeff(y_i, x_j) at A[i, j] and re-keys y by res_like. the first columns of the blade matrices are orthonormal "
+                   "(Kronecker-factor inner products), so the similarity transform is orthogonal and the first column of "
+                   "asmatrix(x) is the coefficient vector of x (which is what makes asmatrix injective and frommatrix its "
+                   "inverse). NOT decided: sympy.collect / coeff.",
     "decided": ["C18.asmatrix", "C18.frommatrix", "C18.kronecker", "C18.expr-pairing", "C18.expr-placeholders",
                 "C14.matrix-basis", "C09.module-state"],
-    "not_decided": ["orthonormality of the first columns (so that O R O^T has the coefficient vector as first column) and injectivity", "sympy.collect / coeff / lambdify"],
+    "not_decided": ["injectivity beyond: the first columns of the blade matrices are orthonormal (decided), hence the first column of asmatrix(x) is the coefficient vector", "sympy.collect / coeff / lambdify"],
     "assumptions": ["M4: (A kron B)(C kron D) = AC kron BD", "a similarity transform preserves products"],
 }
 
@@ -182,6 +183,30 @@ def kron_key(o):
     return (o.attrs["coeff"], o.attrs["factors"])
 
 
+def first_column_gram(bases):
+    """<c_i, c_j> for the first columns c_i of Kronecker products (the first column of a Kronecker product is the
+    Kronecker product of the first columns, and inner products multiply factor-wise).  Returns the first (i, j, value)
+    that deviates from the identity matrix, or None."""
+    cols = []
+    for b in bases:
+        if b.attrs["coeff"] == 0:
+            cols.append((0, ()))
+        else:
+            cols.append((b.attrs["coeff"], tuple((f[0][0], f[1][0]) for f in b.attrs["factors"])))
+    for i in range(len(cols)):
+        for j in range(i, len(cols)):
+            (ca, fa), (cb, fb) = cols[i], cols[j]
+            if ca == 0 or cb == 0 or len(fa) != len(fb):
+                v = 0
+            else:
+                v = ca * cb
+                for u, w in zip(fa, fb):
+                    v *= u[0] * w[0] + u[1] * w[1]
+            if v != (1 if i == j else 0):
+                return (i, j, v)
+    return None
+
+
 def numpy_standin():
     def array(x, *a, **k):
         if isinstance(x, (list, tuple)) and len(x) == 2 and all(isinstance(r, (list, tuple)) and len(r) == 2 for r in x):
@@ -299,6 +324,7 @@ def _mb_kwargs(repo, label):
 
 
 @rule("C14.matrix-basis", props=["C14", "C18"], min_instances=7, mutants=[
+    ("null generator literal transposed (first column zero)", ("matrixreps", "Z2 = np.array([[0,0], [1,0]])", "Z2 = np.array([[0,1], [0,0]])")),
     ("matrix basis ignores the basis of the algebra", ("algebra", "        return matrix_rep(self.p, self.q, self.r, signature=self.signature, blades=blades)", "        return matrix_rep(self.p, self.q, self.r, signature=self.signature)")),
     ("blades multiplied in descending spelled order", ("matrixreps", "        Rs = [reduce(lambda x, y: x @ y, (Es[j] for j in blade), Iden) for blade in blades]", "        Rs = [reduce(lambda x, y: y @ x, (Es[j] for j in blade), Iden) for blade in blades]")),
     ("generator labels taken without the start index", ("algebra", "        blades = [tuple(int(ei, base=16) - self.start_index for ei in eJ[1:]) for eJ in self.canon2bin]", "        blades = [tuple(int(ei, base=16) - 1 for ei in eJ[1:]) for eJ in self.canon2bin]")),
@@ -383,6 +409,14 @@ def matrix_basis(ctx):
                         problems.append(f"row {i} of the similarity transform is not the first column of the matrix of blade {names[i]} "
                                         f"(frommatrix reads the coefficients from the first column, in canonical order)")
                         break
+        if not problems:
+            dev = first_column_gram(bases)
+            if dev is not None:
+                i, j, v = dev
+                problems.append(f"the first columns of the matrices of {names[i]} and {names[j]} have inner product {v} (expected "
+                                f"{1 if i == j else 0}): the similarity transform stacked from the first columns is then not orthogonal, so "
+                                f"the first column of x.asmatrix() no longer holds the coefficients of x (frommatrix does not invert "
+                                f"asmatrix, distinct multivectors can share a matrix)")
         if problems:
             ctx.violation(c, f"{label}: " + "; ".join(problems[:4]) + " - asmatrix indexes matrix_basis by canonical position, so "
                              f"(a*b).asmatrix() != a.asmatrix() @ b.asmatrix() for blades of this algebra", fn)
